@@ -201,6 +201,15 @@ def run(tier, seed, only=None):
     rep.bounds = {"ny": nys}
     rep.assumptions = ["real arithmetic", "log/pow are uninterpreted atoms with instantiated sign/monotonicity facts; ln(Re_c k_lam) > ln(1e3) given as the admissibility box",
                        "Re-monotonicity and positivity with transition (0 < k_lam < 1) need x/log10(x)^2.58 monotone: posed and reported inconclusive if undecided"]
+    # the estimates as the per-surface functionals group wires them: wave drag is evaluated with the surface's own CL
+    # (CL1 + CL0), the drag sum takes the group's CDi, CDv, CDw
+    from props import groups
+    from openaerostruct.aerodynamics.functionals import VLMFunctionals
+
+    for lab, over in (("viscous, wave", dict(with_viscous=True, with_wave=True)), ("wave only", dict(with_viscous=False, with_wave=True))):
+        sg = K.surface(2, 3, True, **over)
+        groups.wiring_check(rep, lambda sg=sg: VLMFunctionals(surface=sg), "VLMFunctionals(%s)" % lab,
+                            "every drag estimate is evaluated on the group's own variables of the same name (lift coefficient, geometry, flow)", timeout)
     return rep.finish("C18 (reduced): switch semantics, wave-drag sign/monotonicity/continuity on every path, viscous-drag sign/monotonicity for "
                       "fully turbulent/laminar flow, spanwise/chordwise mesh independence on constant-chord wings")
 
